@@ -670,7 +670,6 @@ class DefaultCodec(Codec):
                     )
 
             # Layer current keys on top of parent's keys
-            output_keys = dict()
             keys = obj.list_keys(_include_merge_parent=False)
             for k in keys:
                 result = obj.get(k)
@@ -692,13 +691,14 @@ class DefaultCodec(Codec):
                     content_key=partition_content_key,
                     from_parent=False,
                 )
-                output_keys[k] = index_entry
                 index[k] = index_entry
 
             # If this is an InMemoryPartition, remember the output keys so they can be
-            # referred to when merging partitions in the future
+            # referred to when merging partitions in the future. The merged index is remembered
+            # (not only this partition's own keys) so that the keys inherited from its own merge
+            # parent are passed on to partitions that use this object as their merge parent.
             if hasattr(obj, "_output_keys") and hasattr(obj, "_parent_data_source"):
-                obj._output_keys = output_keys
+                obj._output_keys = index
                 obj._parent_data_source = data_source
 
             # noinspection PyProtectedMember
